@@ -157,10 +157,10 @@ func (c *Conn) Write(p []byte) (int, error) {
 	return len(p), nil
 }
 
-func (c *Conn) Delivered() int                      { return c.pos }
-func (c *Conn) Close() error                        { c.Closed = true; return nil }
-func (c *Conn) LocalAddr() net.Addr                 { return simAddr{} }
-func (c *Conn) RemoteAddr() net.Addr                { return simAddr{} }
-func (c *Conn) SetDeadline(t time.Time) error       { return nil }
-func (c *Conn) SetReadDeadline(t time.Time) error   { return nil }
-func (c *Conn) SetWriteDeadline(t time.Time) error  { return nil }
+func (c *Conn) Delivered() int                     { return c.pos }
+func (c *Conn) Close() error                       { c.Closed = true; return nil }
+func (c *Conn) LocalAddr() net.Addr                { return simAddr{} }
+func (c *Conn) RemoteAddr() net.Addr               { return simAddr{} }
+func (c *Conn) SetDeadline(t time.Time) error      { return nil }
+func (c *Conn) SetReadDeadline(t time.Time) error  { return nil }
+func (c *Conn) SetWriteDeadline(t time.Time) error { return nil }
